@@ -143,9 +143,19 @@ class Ctx(object):
     def note(self, text):
         self.notes.append(text)
 
-    def require(self, cond, what):
-        """Anchor roles that must exist; otherwise the analysis is broken."""
+    def require(self, cond, what, rule=None, func=None):
+        """Anchor roles that must exist.  A role needed to *locate* a routine
+        (class, method) that vanished breaks the analysis (exit 2).  A
+        mechanism *inside* a located routine - the call, store, loop or
+        guard a clause is about - that is gone is a violation of that clause
+        (``rule`` given): whatever the property relied on there is no longer
+        performed."""
         if not cond:
+            if rule is not None:
+                self.fail(rule, func if func is not None else
+                          'treadmill', None,
+                          'the mechanism this clause is about is gone: %s' %
+                          what, construct='missing: %s' % what)
             raise AnalysisError('anchor vanished: %s' % what)
         return cond
 
